@@ -48,6 +48,20 @@ class PersistentThreadWorker(PersistentWorker, ThreadWorker):
             self._dead = True
         return not alive
 
+    def is_alive(self):
+        ret = super().is_alive()
+        if not ret and self._started and not self._cleaned_up and not self.is_child:
+            # a terminated child might have died before (or while) signalling the end of its results - unlike with processes,
+            # nothing closes the results pipe of a dead thread, so finish the job on its behalf
+            self._cleanup()
+        return ret
+
+    def terminate(self, *args, **kwargs):
+        dead = super().terminate(*args, **kwargs)
+        if dead:
+            self.is_alive()
+        return dead
+
     def close(self):
         ''' Informs the child process that no more input data is expected.
             Does not synchronize the two processes - after call to this function the
@@ -94,10 +108,13 @@ class PersistentThreadWorker(PersistentWorker, ThreadWorker):
         if self._cleaned_up:
             return
 
-        self._results_pipe.child_end.put((self._counter, False, None, self.id))
-        if hasattr(self._results_pipe.child_end, 'close'):
-            logger.debug('Closing child\'s pipe end')
-            self._results_pipe.child_end.close()
+        try:
+            # _counter does not exist if the child is terminated before it could initialize itself
+            self._results_pipe.child_end.put((getattr(self, '_counter', 0), False, None, self.id))
+        finally:
+            if hasattr(self._results_pipe.child_end, 'close'):
+                logger.debug('Closing child\'s pipe end')
+                self._results_pipe.child_end.close()
 
         self._cleaned_up = True
 
